@@ -237,6 +237,11 @@ def apply_mutator(m, op, overrides):
     raise ValueError(k)
 
 
+def _data_state(m):
+    d = m._data.data
+    return tuple((k, np.asarray(v).tobytes() if hasattr(v, "tobytes") else repr(v)) for k, v in sorted(d.items(), key=lambda kv: kv[0]))
+
+
 @body("C01.history")
 def b_history(case, ctx):
     with np.errstate(all="ignore"):
@@ -252,6 +257,7 @@ def b_history(case, ctx):
         # digits_norm=2 decimals and the merged vertex keeps one of the normals: after such a merge cached
         # vertex normals are only defined to that documented precision (sqrt(3)*0.5e-2 per component bound -> 2e-2)
         vn_atol = 1e-9
+        held = None
         for si, op in enumerate(case["ops"]):
             if op[0] == "read":
                 names = mv.ALL if op[1] == "ALL" else mv.CHEAP if op[1] == "CHEAP" else op[1]
@@ -261,20 +267,57 @@ def b_history(case, ctx):
                 if effective:
                     nontrivial = True
                 continue
+            if op[0] == "hold":
+                # keep a (possibly nested) view of a stored array across later reads
+                arr = m.vertices if op[1] == "v" else m.faces
+                v = arr
+                for kind in op[2]:
+                    if kind == "rows":
+                        v = v[1:]
+                    elif kind == "col":
+                        v = v[:, 2] if v.ndim == 2 else v
+                    elif kind == "flat":
+                        v = v.reshape(-1)
+                    elif kind == "step":
+                        v = v[0::3]
+                    elif kind == "row0":
+                        v = v[0] if v.ndim == 2 and len(v) else v
+                    elif kind == "T":
+                        v = v.T
+                held = (op[1], v)
+                continue
+            if op[0] == "write_held":
+                if held is None or held[1].size == 0:
+                    continue
+                which, v = held
+                h0 = (m.vertices.tobytes(), m.faces.tobytes())
+                if which == "v":
+                    v += op[1]
+                else:
+                    # reverse the first face reachable through the view (keeps indices valid)
+                    flat = v.reshape(-1)
+                    if flat.size >= 3:
+                        flat[:3] = flat[:3][::-1].copy()
+                if (m.vertices.tobytes(), m.faces.tobytes()) != h0 and warm:
+                    effective = True
+                last = f"inplace:write_through_held_view:{which}"
+                labels.append("inplace:held_view")
+                continue
             if op[0] == "check":
                 compare(m, overrides, op[1], f"step {si}", last, warm[:12], vn_atol)
                 warm = list(dict.fromkeys(warm + list(op[1])))[-60:]
                 if effective:
                     nontrivial = True
                 continue
-            h0 = (m.vertices.tobytes(), m.faces.tobytes(), float(m.density), overrides.get("center_mass") and m.center_mass.tobytes())
+            # bookkeeping must not touch the cache of the mesh under test: look at the stored data only
+            h0 = _data_state(m)
             label, m2 = apply_mutator(m, op, overrides)
             if label is None:
                 continue
             if m2 is not m:
                 kept.append((m, dict(overrides), last))
                 m = m2
-            h1 = (m.vertices.tobytes(), m.faces.tobytes(), float(m.density), overrides.get("center_mass") and m.center_mass.tobytes())
+            h1 = _data_state(m)
             if h1 != h0 and warm:
                 effective = True
             last = label
@@ -369,8 +412,12 @@ def history(draw):
     n = draw(st.integers(2, 10))
     names = st.lists(st.sampled_from(mv.MEDIUM), min_size=1, max_size=6, unique=True)
     for _ in range(n):
-        t = draw(st.sampled_from(["read", "read", "check", "mut", "mut", "mut"]))
-        if t == "read":
+        t = draw(st.sampled_from(["read", "read", "check", "mut", "mut", "mut", "hold", "write_held"]))
+        if t == "hold":
+            ops.append(["hold", draw(st.sampled_from(["v", "v", "f"])), draw(st.lists(st.sampled_from(["rows", "col", "flat", "step", "row0", "T"]), min_size=1, max_size=3))])
+        elif t == "write_held":
+            ops.append(["write_held", draw(st.sampled_from([0.5, -1.25, 2.0]))])
+        elif t == "read":
             ops.append(["read", draw(st.one_of(st.just("CHEAP"), names, names))])
         elif t == "check":
             ops.append(["check", draw(names)])
@@ -481,6 +528,34 @@ def two_step_cases():
                 yield {"start": start, "ops": [["read", "CHEAP"], a, ["read", "CHEAP"], b], "final": "MEDIUM"}
 
 
+def held_view_cases():
+    """view (depth 1-3) of vertices / faces created first, values read, then a write through the held view"""
+    chains = [["rows"], ["col"], ["flat"], ["T"], ["col", "rows"], ["rows", "col"], ["flat", "step"], ["rows", "row0"], ["T", "row0"], ["rows", "rows", "col"], ["flat", "rows", "step"]]
+    for start in DEPTH1_STARTS[:3]:
+        for which in ("v", "f"):
+            for chain in chains:
+                for w in (None, "CHEAP", ["bounds"], ["area", "face_normals"], ["edges", "face_adjacency"], ["volume"]):
+                    for again in (False, True):
+                        ops = [["hold", which, chain]]
+                        if w is not None:
+                            ops.append(["read", w])
+                        ops.append(["write_held", 0.75])
+                        if again:
+                            ops += [["read", "CHEAP"], ["write_held", -0.5]]
+                        yield {"start": start, "ops": ops, "final": "MEDIUM"}
+    # an in-place edit immediately followed by a copy (no read in between)
+    for start in DEPTH1_STARTS[:3]:
+        for how in ("copy", "copy_cache", "copy.copy", "deepcopy"):
+            for edit in (["edit_vertex", 1, [0.3, 0.2, -0.4]], ["scale_inplace", 2.0], ["flip_face", 0], ["assign_vertices", 2.0, [0.0, 1.0, 0.0]]):
+                for w in ("CHEAP", ["area", "bounds", "volume"]):
+                    yield {"start": start, "ops": [["read", w], edit, ["copy", how]], "final": "MEDIUM"}
+
+
+@subcheck("C01", "held_views", shards={"quick": 6, "thorough": 8})
+def s_held(ctx):
+    ctx.enumerate("C01.history", held_view_cases(), label="held_view_chains_x_warm_sets_and_edit_then_copy")
+
+
 @subcheck("C01", "depth1_matrix", shards={"quick": 12, "thorough": 16})
 def s_depth1(ctx):
     if ctx.tier == "quick":
@@ -508,4 +583,4 @@ def s_hist(ctx):
     ctx.given("C01.history", history(), n={"quick": 700, "thorough": 20000})
 
 
-REQUIRED_CLASSES["C01"] = ["apply_transform:mirror", "apply_transform:anisotropic", "invert", "update_faces:bool", "copy:copy_cache", "inplace:face_reversed"]
+REQUIRED_CLASSES["C01"] = ["inplace:held_view", "apply_transform:mirror", "apply_transform:anisotropic", "invert", "update_faces:bool", "copy:copy_cache", "inplace:face_reversed"]
